@@ -283,6 +283,30 @@ func (ex *Exec) havocEverything(w *World) {
 	}
 	ex.bankHavocAll(w)
 	w.Opaque["*"]++
+	for _, d := range ex.Cfg.Aggs {
+		ex.fresh++
+		w.Aggs[d.Name] = &AggState{Base: fmt.Sprintf("%sagg!%s!h%d", ex.worldBase, d.Name, ex.fresh)}
+	}
+	w.Log = append(w.Log, "havoc world")
+}
+
+// applyEffects havocs what an inferred effect set says may change.
+func (ex *Exec) applyEffects(w *World, effects []string) {
+	for _, e := range effects {
+		if strings.HasPrefix(e, "sdk:") {
+			ex.havocEverything(w)
+			return
+		}
+	}
+	for _, e := range effects {
+		switch {
+		case e == "bank":
+			ex.bankHavocAll(w)
+			w.Log = append(w.Log, "havoc bank")
+		case strings.HasPrefix(e, "store:"):
+			ex.havocModule(w, strings.TrimPrefix(e, "store:"))
+		}
+	}
 }
 
 func (ex *Exec) findWorld(args []Val) *World {
@@ -366,6 +390,21 @@ func (ex *Exec) invoke(fr *frame, common *ssa.CallCommon, recv Val, args []Val, 
 			rt := fn.Signature.Recv().Type()
 			rv := ex.symbolic(rt, Namer{Prefix: "keeper!" + typeString(rt)})
 			return ex.callFunction(fr, fn, append([]Val{rv}, args...), nil, common, ins)
+		}
+	}
+	// several elys implementations (hook interfaces): fresh results, and the ghost state the
+	// implementations may write according to the call-graph frame inference
+	if ex.Cfg.IfaceFrame != nil {
+		if effects, n := ex.Cfg.IfaceFrame(itype, mname); n > 0 {
+			if w := ex.findWorld(all); w != nil {
+				ex.applyEffects(w, effects)
+			}
+			tag := "inferred-frame: " + typeString(itype) + "." + mname + " may write [" + strings.Join(effects, " ") + "]"
+			ex.Externals[tag] = true
+			if c.Result == nil {
+				return nil
+			}
+			return ex.symbolicResult(c.Result, Namer{Prefix: ex.site("hook!" + mname)})
 		}
 	}
 	return ex.externalHavoc(c, "invoke "+typeString(itype)+"."+mname)
